@@ -332,7 +332,23 @@ impl NarrowedShape {
                 // `equivalent` asks whether the left shape is contained in
                 // the right one. A candidate is only a duplicate when that
                 // holds both ways: a wider tuple or list adds something.
+                // "Could be anything" is contained in every set of shapes
+                // and contains them all as far as `equivalent` goes. It is
+                // a candidate of its own and only a duplicate of itself.
+                let unknown = |s: &Shape| {
+                    matches!(
+                        s,
+                        Shape::Hole(_)
+                            | Shape::Narrowed(NarrowedShape {
+                                types: NarrowingShape::Any,
+                                ..
+                            })
+                    )
+                };
                 for s in types.iter() {
+                    if unknown(s) != unknown(&shape) {
+                        continue;
+                    }
                     if s.equivalent(&shape, symbol_table) && shape.equivalent(s, symbol_table) {
                         return;
                     }
@@ -372,8 +388,9 @@ impl Shape {
             (Shape::Str(_), Shape::Str(_))
             | (Shape::Boolean(_), Shape::Boolean(_))
             | (Shape::Int(_), Shape::Int(_))
-            | (Shape::Hole(_), Shape::Hole(_))
             | (Shape::Float(_), Shape::Float(_)) => true,
+            // Two unknowns are only the same unknown when they have one name.
+            (Shape::Hole(left), Shape::Hole(right)) => left.val == right.val,
             (Shape::ConstraintRef(left), Shape::ConstraintRef(right)) => left.val == right.val,
             (
                 Shape::List(NarrowedShape {
